@@ -354,17 +354,59 @@ def r5_beta_domain(ctx):
     ctx.check(ok, "C18.R5", f, f.node, "shape parameters derive from the clipped means", "the Beta shape parameters no longer derive from the clipped noiseless values", construct="means feed the shape parameters")
 
 
+def r6_at_least_one_visit(ctx):
+    """'exactly the requested number of individuals ... each with unique, increasing ages' and 'every design that satisfies the
+    requirements runs to completion': an individual whose list of ages is empty disappears from the tables built afterwards (or makes
+    the estimation fail); a zero-length follow-up is a legitimate design, so the list must be non-empty whatever the loop does."""
+    ctx.rule("C18.R6", "random designs: every individual gets at least its baseline visit (the list of ages is never empty)", 1)
+    f = ctx.ix.func(SIM, f"{CLS}._generate_visit_ages", "C18.R6")
+    cfg = CFG(f.node)
+    loops = [w for w in ast.walk(f.node) if isinstance(w, ast.While)]
+    if len(loops) != 1:
+        ctx.unknown("C18.R6", f, f.node, f"{len(loops)} while-loops in _generate_visit_ages (one expected)")
+        return
+    apps = [c for c in ast.walk(loops[0]) if isinstance(c, ast.Call) and isinstance(c.func, ast.Attribute) and c.func.attr == "append" and isinstance(c.func.value, ast.Name)]
+    if not apps:
+        ctx.unknown("C18.R6", f, loops[0], "the visit loop does not append to a list of ages")
+        return
+    var = apps[0].func.value.id
+    inits = [(n, st) for n, st in cfg.stmt.items() if isinstance(st, ast.Assign) and any(isinstance(t, ast.Name) and t.id == var for t in st.targets)]
+    uses = [n for n, st in cfg.stmt.items() if isinstance(st, ast.Assign) and isinstance(st.targets[0], ast.Subscript) and any(isinstance(x, ast.Name) and x.id == var for x in ast.walk(st.value))]
+    if not inits or not uses:
+        ctx.unknown("C18.R6", f, f.node, f"cannot find the initialisation / the hand-over of the list of ages `{var}`")
+        return
+    n0, st0 = inits[-1]
+    nonempty_init = isinstance(st0.value, ast.List) and len(st0.value.elts) >= 1
+    all_apps = [cfg.node_containing(c) for c in ast.walk(f.node) if isinstance(c, ast.Call) and isinstance(c.func, ast.Attribute) and c.func.attr == "append"
+                and isinstance(c.func.value, ast.Name) and c.func.value.id == var]
+    dominating = [a for a in all_apps if a is not None and all(cfg.dominates(a, u) for u in uses) and cfg.dominates(n0, a)]
+    ctx.check(nonempty_init or bool(dominating), "C18.R6", f, st0, f"`{var}` starts with the baseline age (or an append dominates its use): never empty",
+              f"`{var}` starts empty and is only filled inside `while {U(loops[0].test)[:50]}`: with a zero-length follow-up (a valid design) an individual gets no visit at all",
+              construct="list of ages never empty")
+    if nonempty_init:
+        e0 = st0.value.elts[0]
+        first = U(e0)
+        if isinstance(e0, ast.Name):  # the definition of that name reaching the initialisation
+            ds = [(n, st) for n, st in cfg.stmt.items() if isinstance(st, ast.Assign) and any(isinstance(t, ast.Name) and t.id == e0.id for t in st.targets) and cfg.dominates(n, n0) and n != n0]
+            ds = [d for d in ds if all(cfg.dominates(o[0], d[0]) for o in ds)]
+            if ds:
+                first = U(ds[0][1].value)
+        ctx.check("AGE_AT_BASELINE" in first, "C18.R6", f, st0, "the first visit is the baseline age", f"the first visit is `{first[:60]}`, not the baseline age", construct="first visit = baseline")
+
+
 def rules(ctx):
     r1_validate_before_use(ctx)
     r2_none_use(ctx)
     r3_generation_after_validation(ctx)
     r4_progress(ctx)
     r5_beta_domain(ctx)
+    r6_at_least_one_visit(ctx)
     ctx.trust("isinstance / `in` semantics; the shipped default_simulate.json provides the top-level keys")
 
 
 F = "src/leaspy/algo/simulate/simulate.py"
 VARIANTS = [
+    V("baseline-visit-only-if-follow-up", "src/leaspy/algo/simulate/simulate.py", "            age_visits = [time]\n", "            age_visits = []\n", "C18.R6"),
     V("visit-type-unchecked", F, """        if not isinstance(visit_parameters, dict) or "visit_type" not in visit_parameters:
             raise LeaspyAlgoInputError(
                 "The `visit_parameters` should be a dictionary with a 'visit_type' key."
